@@ -45,6 +45,7 @@ pub fn run(id: &str, tier: Tier, seed: u64) -> Option<i32> {
         "C14" => Some(c14::run(tier, seed)),
         "C15" => Some(c15::run(tier, seed)),
         "C16" => Some(c16::run(tier, seed)),
+        "C18" => Some(c18::run(tier, seed)),
         "C17" => Some(c17::run(tier, seed)),
         _ => hist_prop(id).map(|hp| hist::run(&hp, tier, seed)),
     }
@@ -60,6 +61,7 @@ pub fn replay(id: &str, v: &serde_json::Value) -> Result<Option<String>, String>
         "C14" => c14::replay(v),
         "C15" => c15::replay(v),
         "C16" => c16::replay(v),
+        "C18" => c18::replay(v),
         "C17" => c17::replay(v),
         _ => match hist_prop(id) {
             Some(hp) => hist::replay_value(&hp, v),
